@@ -1,0 +1,21 @@
+//go:build verif
+
+package pool
+
+// VerifLockProbeSectorAllocator reports whether the lock of a
+// SectorAllocator created by NewBitmapSectorAllocator() is currently
+// free. known is false for other implementations. It is a read-only
+// probe (TryLock followed by Unlock) for the runtime verification
+// harnesses (property C14) and must only be called when no call is in
+// flight against the allocator.
+func VerifLockProbeSectorAllocator(sa SectorAllocator) (free, known bool) {
+	b, ok := sa.(*bitmapSectorAllocator)
+	if !ok {
+		return false, false
+	}
+	if !b.lock.TryLock() {
+		return false, true
+	}
+	b.lock.Unlock()
+	return true, true
+}
